@@ -28,7 +28,9 @@ fn stream_of(lines: &[(Vec<weechess_core::Move>, weechess_engine::eval::Evaluati
 }
 
 fn hook_stream(fen: &str, depth: usize, seed: u64, hseed: u64, ev: &Evaluator) -> Option<String> {
-    let sc = Scenario { tables: 8, buckets: 1024, hasher_seed: hseed, steps: vec![Step::new(fen, depth, 1, seed)] };
+    // the memory geometry is derived from the hasher seed: roomy, or small enough for buckets to overflow
+    let (tables, buckets) = [(8usize, 1024usize), (8, 1024), (1, 1), (2, 5), (4, 16), (3, 7)][(hseed % 6) as usize];
+    let sc = Scenario { tables, buckets, hasher_seed: hseed, steps: vec![Step::new(fen, depth, 1, seed)] };
     let mut out = None;
     sc.run(ev, |_, _, res| {
         if res.out.panic.is_none() {
